@@ -337,6 +337,19 @@ func schedPrograms(level string) []schedProgram {
 		so.slow = true
 		return so
 	}
+	// the one zero-length body (all empty bodies are the same body)
+	empty := func(cr *concRun, k []interface{}) schedOp {
+		cr.mu.Lock()
+		cr.atoms["e0"], cr.byMD5[quoteETag(nil)], cr.md5s["e0"], cr.bySHA[sha256hex(nil)] = []byte{}, "e0", md5hex(nil), "e0"
+		cr.mu.Unlock()
+		return schedOp{op: Op{"op": "PutObject", "b": concBucket, "k": k, "body": []interface{}{"e0"}, "meta": []interface{}{}, "vid": ""}, body: []byte{}}
+	}
+	bigput := func(cr *concRun, r *rand.Rand, name string, k []interface{}) schedOp {
+		old := cr.sizes
+		cr.sizes = []int{70000}
+		defer func() { cr.sizes = old }()
+		return put(cr, r, name, k)
+	}
 	get := func(k []interface{}) schedOp { return schedOp{op: Op{"op": "GetObject", "b": concBucket, "k": k}} }
 	head := func(k []interface{}) schedOp { return schedOp{op: Op{"op": "HeadObject", "b": concBucket, "k": k}} }
 	del := func(k []interface{}) schedOp {
@@ -380,6 +393,16 @@ func schedPrograms(level string) []schedProgram {
 		}},
 		{name: "v-slowput-slowput-get", versioned: true, build: func(cr *concRun, r *rand.Rand) ([][]schedOp, []string) {
 			return [][]schedOp{{slowput(cr, r, "w1_0", k1)}, {slowput(cr, r, "w2_0", k1)}, {get(k1)}}, both
+		}},
+		// a download parked after its first write, overlapped by overwrites with an EMPTY body (put, copy of an empty object)
+		{name: "get-emptyput-head", build: func(cr *concRun, r *rand.Rand) ([][]schedOp, []string) {
+			setup(cr, bigput(cr, r, "w0_0", k1))
+			return [][]schedOp{{get(k1)}, {empty(cr, k1)}, {head(k1)}}, both
+		}},
+		{name: "get-copyempty-put", build: func(cr *concRun, r *rand.Rand) ([][]schedOp, []string) {
+			setup(cr, bigput(cr, r, "w0_0", k1))
+			setup(cr, empty(cr, k2))
+			return [][]schedOp{{get(k1)}, {cp(k2, k1)}, {bigput(cr, r, "w3_0", k1)}}, both
 		}},
 		{name: "put-delete-list", build: func(cr *concRun, r *rand.Rand) ([][]schedOp, []string) {
 			setup(cr, put(cr, r, "w0_0", k1))
@@ -547,7 +570,9 @@ func exploreProgram(sysName string, p schedProgram, seed int64, max int, st *sch
 			*problems = append(*problems, sysName+": "+err.Error())
 			return
 		}
-		cr.sizes = []int{40, 3000}
+		// small bodies, and bodies of more than one copy buffer: what a download has still to read from the
+		// backend when it is parked after its first write
+		cr.sizes = []int{40, 70000}
 		r := rand.New(rand.NewSource(seed))
 		cr.record(reset)
 		progs, keys := p.build(cr, r)
